@@ -654,11 +654,23 @@ fn placeholders(req: &Value) -> Value {
             "label" => Instruction::Label(Label { target: target.unwrap() }),
             "jump" => Instruction::Jump(Jump { target: target.unwrap() }),
             "jumpwhen" => Instruction::JumpWhen(JumpWhen { target: target.unwrap(), condition: MemoryReference { name: "ro".to_string(), index: 0 } }),
+            "jumpunless" => Instruction::JumpUnless(quil_rs::instruction::JumpUnless { target: target.unwrap(), condition: MemoryReference { name: "ro".to_string(), index: 0 } }),
+            "reset" => Instruction::Reset(quil_rs::instruction::Reset { qubit: qubits.first().cloned() }),
+            "measure-to" => Instruction::Measurement(Measurement { name: None, qubit: qubits[0].clone(), target: Some(MemoryReference { name: "ro".to_string(), index: 0 }) }),
             k => return json!({"unknown_kind": k}),
         };
         program.add_instruction(ins);
     }
     let before: Vec<Value> = program.body_instructions().map(dbg).collect();
+    if req["quil_only"].as_bool().unwrap_or(false) {
+        // serialization of the unresolved body (C04): per instruction and for the whole program
+        let show = |r: Result<String, quil_rs::quil::ToQuilError>| match r {
+            Ok(s) => json!({"ok": s}),
+            Err(e) => json!({"err": format!("{e:?}")}),
+        };
+        let per: Vec<Value> = program.body_instructions().map(|i| json!({"to_quil": show(i.to_quil()), "or_debug": i.to_quil_or_debug()})).collect();
+        return json!({"before": before, "instructions": per, "program": {"to_quil": show(program.to_quil()), "or_debug": program.to_quil_or_debug()}});
+    }
     if req["custom"].is_null() {
         program.resolve_placeholders();
     } else {
